@@ -25,7 +25,26 @@ LEVEL = {
  "C18": "dirty->commit typestate on __fields__, commit refreshes every derived attribute on every path, self-reference path uses the same factory/compile condition",
  "C20": "every stub template parses as Python, identifier holes are sanitised, no check-after-use contradiction, completeness of emitter loops, faithful built-in type names",
 }
-TECH = "static analysis: repository-specific AST/CFG/call-graph/effect/table/template rules (csa)"
+TECH = ("static analysis: repository-specific AST / CFG / call-graph / effect / table / template rules (csa), plus bounded partial evaluation of pure leaf "
+        "functions by the checker's own whitelist AST evaluator over finite symbolic input families (nothing from the repository is imported or executed)")
+FOLDS = {
+ "C01": "the four scalar codec families through all protocol slots, LEB128, the bit buffer, the interpreted structure reader / writer",
+ "C02": "the scalar codecs, LEB128, the bit buffer, the interpreted structure reader / writer",
+ "C03": "the omission test of the generated unpack line",
+ "C04": "the layout calculators, _make_array, len(T), the interpreted structure reader / writer",
+ "C05": "the scalar codec families (five byte-order characters), LEB128",
+ "C06": "the bit buffer, the layout calculator, the interpreted structure reader / writer",
+ "C07": "_make_array, BaseArray._read / _write, the array slots of the scalar codecs",
+ "C08": "the reading slots of the scalar codecs, StructureMetaType.__call__, BaseArray",
+ "C09": "_is_eof, LEB128, StructureMetaType.__call__, Pointer.dereference, the interpreted structure reader / writer",
+ "C10": "Expression._mark_unary_minus (bounded-exhaustive over token lists), a computed precedence table",
+ "C11": "the union layout calculator, UnionMetaType.__call__",
+ "C12": "the enum / flag numbering statements, Enum.__eq__ / Flag.__eq__",
+ "C13": "cstruct.resolve over alias tables",
+ "C16": "Pointer.dereference, the null-terminated readers of char / wchar",
+ "C17": "the generated-method patchers for every field count (bytecode layout), one default object per field",
+ "C18": "StructureMetaType.__call__",
+}
 
 NA = {
  "C19": "value-level behaviour of the hexdump state machine and of int.to_bytes/from_bytes for all inputs; nothing in its truth is visible in the shape of the code, and the only structural clause (each pN/uN/swapN helper passes its own width) is already pinned by unit tests - an honest not-applicable for static analysis",
@@ -50,8 +69,9 @@ def main():
             "engine": "csa",
             "level_claimed": {
                 "category": "other",
-                "text": "Static decision of structural necessary conditions of the property, for all paths / call sites / templates / field counts at once: " + LEVEL[pid] + ". It decides those clauses, not the behavioural property as a whole (value-level arithmetic is out of reach of a sound static argument here).",
-                "design_ref": f"DESIGN.md section 4, {pid}",
+                "text": "Static decision of structural necessary conditions of the property, for all paths / call sites / templates / field counts at once: " + LEVEL[pid] + ". It decides those clauses, not the behavioural property as a whole (value-level arithmetic is out of reach of a sound static argument here)."
+                        + (f" Some clauses are decided by bounded folds (DESIGN.md 9.7) of: {FOLDS[pid]} - agreement with a reference on a finite family of inputs, not a proof for all inputs." if pid in FOLDS else ""),
+                "design_ref": f"DESIGN.md section 4 ({pid}) and section 9 (as built; 9.9 lists every rule)",
             },
             "level_note": "Trusted: CPython 3.12 ast/compile/struct/enum semantics; the checker's frozen receiver-typing and object-kind tables (re-validated structurally where possible); by-name call resolution for untyped receivers; user-defined types and user streams are outside the analysed program.",
             "technique": TECH,
